@@ -60,10 +60,13 @@ package capella
 //@   trusted
 //@   ensures (err != nil) == st_exhdr_err_capella(s)
 //@   ensures err == nil ==> r != nil && r == st_exhdr_capella(s)
+//@ sort HdrViewC_capella = *ExecutionPayloadHeaderView
+//@ sort HdrRawC_capella = ExecutionPayloadHeader
+//@ ufun exhdr_val_capella(HdrViewC_capella) HdrRawC_capella
 //@ func (v *ExecutionPayloadHeaderView) Raw() (r, err)
 //@   trusted
 //@   ensures (err != nil) == exhdr_raw_err_capella(v)
-//@   ensures err == nil ==> r != nil && r == exhdr_raw_capella(v)
+//@   ensures err == nil ==> r != nil && r == exhdr_raw_capella(v) && *r == exhdr_val_capella(v)
 
 // ---------------------------------------------------------------- withdrawal predicates (C01)
 // has_eth1_withdrawal_credential / is_fully_withdrawable_validator / is_partially_withdrawable_validator,
@@ -181,6 +184,14 @@ package capella
 //@   opt noalloc
 //@   ensures (err != nil) == pst_slot_err_capella(state)
 //@   ensures err == nil ==> r == pst_slot_capella(state)
+// the concrete capella state's payload header and its raw form (read by the deneb upgrade): assumed models
+//@ ufun pst_hdr_err_capella(StatePtr_capella) bool
+//@ ufun pst_hdr_capella(StatePtr_capella) HdrViewC_capella
+//@ func (state *BeaconStateView) LatestExecutionPayloadHeader() (r, err)
+//@   trusted
+//@   opt noalloc
+//@   ensures (err != nil) == pst_hdr_err_capella(state)
+//@   ensures err == nil ==> r != nil && r == pst_hdr_capella(state)
 //@ func (state *BeaconStateView) Fork() (r, err)
 //@   trusted
 //@   opt noalloc
